@@ -38,6 +38,8 @@ type Config struct {
 	FPExactAdd   bool
 	SymSlices    bool
 	DivZeroPrune bool
+	PoolReuse    bool
+	PoolHavoc    bool
 	Witnesses    int
 }
 
@@ -310,6 +312,7 @@ type Worker struct {
 	curTask         int
 	sched           *scheduler
 	schedUsed       bool
+	pools           map[*Value][]poolItem
 	timeSeq         int
 	lastSince       *Term
 }
@@ -406,6 +409,7 @@ func (w *Worker) runPath(j Job) {
 	completed := false
 	w.sched = nil
 	w.schedUsed = false
+	w.pools = nil
 	w.timeSeq, w.lastSince = 0, nil
 	func() {
 		defer func() {
